@@ -18,6 +18,7 @@ import (
 	"math"
 	"strings"
 
+	"github.com/sboehler/knut/lib/common/compare"
 	"github.com/sboehler/knut/lib/common/dict"
 	"github.com/sboehler/knut/lib/common/set"
 	"github.com/sboehler/knut/lib/syntax"
@@ -104,7 +105,9 @@ func (m *Model) inferAccount(t *syntax.Transaction, b *syntax.Booking, other str
 		max    = math.Inf(-1)
 		best   string
 	)
-	for candidate := range m.countByAccount {
+	// Candidates are visited in name order, so that ties are resolved the same
+	// way on every run.
+	for _, candidate := range dict.SortedKeys(m.countByAccount, compare.Ordered[string]) {
 		if candidate == other {
 			continue // the other account of this booking is not a valid candidate
 		}
@@ -125,7 +128,8 @@ func (m *Model) inferAccount(t *syntax.Transaction, b *syntax.Booking, other str
 func (m *Model) scoreCandidate(candidate string, tokens set.Set[token]) float64 {
 	count := float64(m.countByAccount[candidate])
 	score := math.Log(count / float64(m.count))
-	for token := range tokens {
+	// Floating point addition is not associative: add the terms in a fixed order.
+	for _, token := range dict.SortedKeys(tokens, compare.Ordered[token]) {
 		if countForToken, ok := m.countByTokenAndAccount[token][candidate]; ok {
 			score += math.Log(float64(countForToken) / count)
 		} else {
